@@ -33,7 +33,8 @@ TENANT_VARIANTS = [
     {"zoo": "Z6"}, {"zoo": "Z6", "relief": True}, {"zoo": "Z6", "exact": True}, {"zoo": "Z7"}, {"zoo": "Z7", "exact": True},
     {"zoo": "Z8"}, {"zoo": "Z8", "wave": True, "relief": True}, {"zoo": "Z8", "exact": True}, {"zoo": "Z5", "sym": False},
     {"zoo": "Z9"}, {"zoo": "Z10"}, {"zoo": "Z11", "compressible": True}, {"zoo": "Z11", "ground": True},
-    {"zoo": "Z12", "wingbox": False}, {"zoo": "Z13"}, {"zoo": "Z14"},
+    {"zoo": "Z12", "wingbox": False}, {"zoo": "Z13"}, {"zoo": "Z14"}, {"zoo": "Z15"}, {"zoo": "Z3", "tail": True},
+    {"zoo": "Z5", "user_meshes": True},
 ]
 
 # ------------------------------------------------------------------------------------------------
